@@ -322,6 +322,12 @@ def subs(tier, only=None):
         out.append(Sub('assign-reuse', gen_reuse(tier), run_reuse,
                        rule='case = (path, value kind evaluated per target, missing factory, sequence of 2-3 targets): ONE Assign object applied to each target '
                             'in turn equals a fresh Assign every time', min_nontrivial=100, min_outcomes=1))
+    if only in (None, 'empty-segments'):
+        from . import c12
+        out.append(Sub('empty-segments', c12.gen_empty_segments(('assign',)), c12.run_empty_segments,
+                       rule="case = (path text over the segments '' and 'k', 1-3 segments, function | spec form) on a tree whose every node has the keys '' and 'k': "
+                            "the effect equals item assignment on the dict reached by splitting the text on every dot",
+                       min_nontrivial=20, min_outcomes=3, required_tags=['leading-empty']))
     if only in (None, 'wildcard-assign'):
         out.append(Sub('wildcard-assign', [c for c in c14.gen_mutate(tier) if c[2] == 'assign'], c14.run_mutate,
                        rule='case = (tree-shaped target, destination with 1-4 wildcards, function|spec form): assignment at every match, in order, '
